@@ -59,6 +59,10 @@ def extra_scenarios(tier, seed):
     for n in ([8, 16] if tier == 'quick' else [2, 4, 8, 16, 32]):
         out.append(dict(n=n, r=1, mode=['das'] * n, schedule=[], jitter=True, auth='', reject=0, fallback=True, debug=True))
         out.append(dict(n=n, r=1, mode=['das' if p % 2 else 'send' for p in range(1, n + 1)], schedule=[], jitter=True, auth='LOGIN-NOENC', reject=0, debug=True))
+    # a server that takes one connection per client: the shared connection lives, every dial of a DialAndSend is refused
+    for n in ([6, 12] if tier == 'quick' else [4, 6, 12, 24]):
+        for k in (1, 2):
+            out.append(dict(n=n, r=k, mode=['das' if p % 2 == 0 else 'send' for p in range(1, n + 1)], schedule=[], jitter=True, auth='', reject=0, dasrefused=True))
     # debug logging into a standard logger of the caller: one logger object serves every connection of the Client
     for n in ([8, 16] if tier == 'quick' else [4, 8, 16, 32]):
         out.append(dict(n=n, r=1, mode=['das' if p % 4 else 'send' for p in range(1, n + 1)], schedule=[], jitter=True, auth='', reject=0, debug=True, logger=True))
